@@ -649,3 +649,139 @@ def describe(case, obs):
                          "no empty items); no-change close leaves the document byte-identical; after edits the "
                          "re-read list == the edited list, text before/after the field byte-identical, the dump "
                          "parses without error element; a refused write-back leaves the document unchanged"}
+
+
+# ---------------------------------------------------------------------------
+# TIE BY REGENERATION (harness/py2coq.py).  Stage 1 — the value tokenizers of lib/debian/_deb822_repro/tokens.py:
+# whitespace_split_tokenizer / comma_split_tokenizer (generators over the finditer matches of the two word-list patterns;
+# the regex leaves are the model's ws_finditer / comma_groups) and the decorator's inner function
+# _value_line_tokenizer.impl (line splitting, the assert, comment lines, continuation markers, the newline token; the
+# decorated function `func` is a leading parameter of the regenerated closure) are regenerated into coq/Gen/TrListTok.v on
+# every run.  coq/Repro/ListTie.v proves them equal, for ALL texts, to the model's ws_line_tokens / comma_line_tokens /
+# tokenize (Repro/ListView.v — what `agree` runs and Props/C11.v is about), errors included, and that no token
+# constructor ever raises; statements in coq/Props/C11Tie.v.
+from harness import extract            # noqa: E402
+from harness import py2coq as _P       # noqa: E402
+
+_T_TOK = ("coq", "tok")
+_T_WSM = ("coq", "trp_wsmatch")
+_T_CM = ("coq", "cgroups")
+_T_LINEFN = ("coq", "(str -> result (list tok))")
+_T_LF = ("literal", "'\\n'", "tt")
+_T_HASH = ("literal", "'#'", "tt")
+_T_STRS = ("list", "str")
+
+
+def _t_tok(kind):
+    # Cls(text): Deb822Token.__init__ + _verify_token_text of the class (C01's Token.mk_token), then the model's Tok
+    return _P.Call("trp_mk_tok %s" % kind, ["str"], _T_TOK, True)
+
+
+def _t_kw(call, names):
+    call.kw = list(names)
+    return call
+
+
+_f_ws = _P.Fun("tr_whitespace_split_tokenizer", "whitespace_split_tokenizer", [("v", "str")], _T_TOK,
+               locals={"match": _T_WSM, "space_before": "str", "word": "str", "space_after": "str"}, generator=True)
+# groups that may be None: the two of the second alternative and the optional word
+_f_comma = _P.Fun("tr_comma_split_tokenizer", "comma_split_tokenizer", [("v", "str")], _T_TOK,
+                  locals={"match": _T_CM, "space_before_comma": ("option", "str"), "comma": ("option", "str"),
+                          "space_before_word": "str", "word": ("option", "str"), "space_after_word": "str"},
+                  generator=True)
+_f_comma.narrow = True
+_f_impl = _P.Fun("tr_value_line_tokenizer_impl", "_value_line_tokenizer.impl", [("v", "str")], _T_TOK,
+                 locals={"first_line": "bool", "line": "str", "has_newline": "bool",
+                         "continuation_line_marker": ("option", "char")},
+                 generator=True, ghost=[("func", _T_LINEFN)])
+_f_impl.narrow = True
+
+TR_MODULE = _P.Module(
+    "TrListTok", "lib/debian/_deb822_repro/tokens.py",
+    funs=[_f_ws, _f_comma, _f_impl],
+    calls={
+        "<str>.strip": _P.Call("trp_strip", ["str"], "str"),
+        "<str>.splitlines": _t_kw(_P.Call("trp_splitlines_keepends", ["str", ("literal", "True", "tt")], _T_STRS),
+                                  [None, "keepends"]),
+        "<str>.startswith": _P.Call("trp_startswith_hash", ["str", _T_HASH], "bool"),
+        "<str>.endswith": _P.Call("trp_endswith_lf", ["str", _T_LF], "bool"),
+        "sys.intern": _P.Call("trp_intern", ["str"], "str"),
+        "_RE_WHITESPACE_LINE.match": _P.Call("trp_ws_line_match", ["str"], "bool"),
+        "_RE_WHITESPACE_SEPARATED_WORD_LIST.finditer": _P.Call("trp_ws_finditer", ["str"], ("list", _T_WSM), True),
+        "_RE_COMMA_SEPARATED_WORD_LIST.finditer": _P.Call("trp_comma_finditer", ["str"], ("list", _T_CM), True),
+        "<trp_wsmatch>.groups": _P.Call("trp_ws_groups", [_T_WSM], ("tuple", "str", "str", "str")),
+        "<cgroups>.groups": _P.Call("trp_comma_groups", [_T_CM],
+                                    ("tuple", ("option", "str"), ("option", "str"), "str", ("option", "str"), "str")),
+        "func": _P.Call("func", ["str"], ("list", _T_TOK), True),
+        "Deb822SpaceSeparatorToken": _t_tok("KSep"),
+        "Deb822WhitespaceToken": _t_tok("KWs"),
+        "Deb822ValueToken": _t_tok("KVal"),
+        "Deb822CommentToken": _t_tok("KCom"),
+        "Deb822ValueContinuationToken": _t_tok("KCont"),
+        "Deb822CommaToken": _P.Call("trp_comma_tok", [], _T_TOK, True),
+        "Deb822NewlineAfterValueToken": _P.Call("trp_newline_tok", [], _T_TOK, True),
+    },
+    imports=["Repro.ListView", "Repro.ListTrPrims"],
+    regexes=[("_RE_WHITESPACE_LINE", r'^\s+$')])
+
+# Code that the primitives of coq/Repro/ListTrPrims.v stand for and that the translator does not see, asserted as source
+# text (sha256 of ast.unparse, 16 hex digits): a change fails the translation closed.
+_T_ASSERTED_TOK = {"lib/debian/_deb822_repro/tokens.py": {
+    "Deb822Token.__init__": "b42fc316658e478a",                     # trp_mk_tok: Token.mk_token
+    "Deb822Token._verify_token_text": "85734d0d17e89cbc",
+    "Deb822Token.is_whitespace": "c7129c8b7ffdd245", "Deb822Token.is_comment": "08dee44c21e24a8a",
+    "Deb822WhitespaceToken.is_whitespace": "c89920c30d35eed6", "Deb822CommentToken.is_comment": "229e3b5a7cf67dec",
+    "Deb822CommaToken.__init__": "95c229fc455ca49c",                # trp_comma_tok
+    "Deb822NewlineAfterValueToken.__init__": "d0406d4f1b04e318"}}   # trp_newline_tok
+# the class of every token the tokenizers build: (bases, methods defined in the class body)
+_T_TOKEN_CLASSES = {
+    "Deb822WhitespaceToken": (["Deb822Token"], ["is_whitespace"]),
+    "Deb822SemanticallySignificantWhiteSpace": (["Deb822WhitespaceToken"], []),
+    "Deb822NewlineAfterValueToken": (["Deb822SemanticallySignificantWhiteSpace"], ["__init__"]),
+    "Deb822ValueContinuationToken": (["Deb822SemanticallySignificantWhiteSpace"], []),
+    "Deb822SpaceSeparatorToken": (["Deb822SemanticallySignificantWhiteSpace"], []),
+    "Deb822CommentToken": (["Deb822Token"], ["is_comment"]),
+    "Deb822SeparatorToken": (["Deb822Token"], []),
+    "Deb822CommaToken": (["Deb822SeparatorToken"], ["__init__"]),
+    "Deb822ValueToken": (["Deb822Token"], [])}
+
+
+def _t_assert_sources(repo, table):
+    import ast
+    import hashlib
+    for rel, defs in table.items():
+        tree = extract._parse(repo, rel)
+        for qual, sha in defs.items():
+            got = hashlib.sha256(ast.unparse(_P.find_def(tree, qual)).encode()).hexdigest()[:16]
+            if got != sha:
+                raise extract.ExtractError("%s (%s) changed: a primitive of coq/Repro/ListTrPrims.v models the "
+                                           "previous text" % (qual, rel))
+
+
+@extract.register("TrListTok")
+def _gen_tr_tok(repo):
+    import ast
+    _t_assert_sources(repo, _T_ASSERTED_TOK)
+    tree = extract._parse(repo, "lib/debian/_deb822_repro/tokens.py")
+    # the decorator is `def impl(v): …; return impl` over its parameter `func`, and both tokenizers carry exactly it
+    deco = _P.find_def(tree, "_value_line_tokenizer")
+    if [a.arg for a in deco.args.args] != ["func"] or len(deco.body) != 2 \
+            or not isinstance(deco.body[0], ast.FunctionDef) or deco.body[0].name != "impl" \
+            or deco.body[0].decorator_list or ast.unparse(deco.body[1]) != "return impl":
+        raise extract.ExtractError("_value_line_tokenizer is no longer `def impl(v): …; return impl`")
+    for q in ("whitespace_split_tokenizer", "comma_split_tokenizer"):
+        if [ast.unparse(d) for d in _P.find_def(tree, q).decorator_list] != ["_value_line_tokenizer"]:
+            raise extract.ExtractError("%s is no longer decorated with exactly @_value_line_tokenizer" % q)
+    classes = {n.name: n for n in tree.body if isinstance(n, ast.ClassDef)}
+    for cls, (bases, meths) in _T_TOKEN_CLASSES.items():
+        n = classes.get(cls)
+        if n is None or [ast.unparse(b) for b in n.bases] != bases \
+                or [m.name for m in n.body if isinstance(m, ast.FunctionDef)] != meths:
+            raise extract.ExtractError("token class %s changed its bases or methods: trp_mk_tok models the previous class" % cls)
+    return _P.translate_module(repo, TR_MODULE)
+
+
+import os as _os    # noqa: E402
+# (registered only while the theorem file is there, so that ./check C11 never breaks on a tree without it)
+TIE_FILE = "Props/C11Tie.v" if _os.path.exists(_os.path.join(
+    _os.path.dirname(_os.path.abspath(__file__)), "..", "..", "coq", "Props", "C11Tie.v")) else None
